@@ -6,27 +6,31 @@
 (* A file is a sequence of abstract records                                *)
 (*   [k |-> "TER"] | [k |-> "MODEL", m] | [k |-> "OTHER"]                  *)
 (*   [k |-> "ATOM"/"HETATM", ch, num, ic, rn, nm, alt]                     *)
-(* rn: residue class "AA" (amino acid) | "IGN" (configured as ignorable)   *)
+(* rn: residue class "AA" (amino acid) | "AB" (another amino acid: an       *)
+(*     alt-loc point mutant shares chain, number and insertion code with   *)
+(*     an "AA" copy) | "IGN" (configured as ignorable)                     *)
 (* nm: "N" | "X" (any other heavy atom) | "OXT" | "H" (a hydrogen)         *)
 (*                                                                         *)
 (* Mechanism face: the reader's state (model, nterm, old, terminal) and    *)
 (*   its branches, one record per step.  KeyKind selects what the reader   *)
 (*   compares to recognise "the same residue": "rid" = chain+number+icode  *)
-(*   (the repaired code), "num" = the number string only (pinned tree).    *)
+(*   (the repaired code), "num" = the number string only (pinned tree),    *)
+(*   "named" = residue name + chain + number + icode (a plausible change   *)
+(*   that splits an alt-loc point mutant into two residues; self-test).    *)
 (* Declarative face: DeclOut - from the property statements (C01: which    *)
 (*   atoms are termini; C07: what is ignored; C08: conformation names;     *)
 (*   C13: chain selection).                                                *)
 (***************************************************************************)
 EXTENDS Integers, Sequences, FiniteSets, TLC
 
-CONSTANTS KeyKind      \* "rid" | "num"
+CONSTANTS KeyKind      \* "rid" | "num" | "named"
 
-NextRes == <<"next", "residue">>     \* sentinels are tuples of lengths no residue key has (keys: 1 or 3)
+NextRes == <<"next", "residue">>     \* sentinels are tuples of lengths no residue key has (keys: 1, 3 or 5)
 NoRes   == <<"n", "o", "n", "e">>
 
 IsAtomRec(r) == r.k \in {"ATOM", "HETATM"}
 Rid(r) == <<r.ch, r.num, r.ic>>
-Key(r) == IF KeyKind = "rid" THEN Rid(r) ELSE <<r.num>>
+Key(r) == IF KeyKind = "rid" THEN Rid(r) ELSE IF KeyKind = "named" THEN <<r.rn, r.ch, r.num, r.ic, "named">> ELSE <<r.num>>
 
 (* conformation name: "<model><altloc>", blank -> A, digits -> letters *)
 AltName(alt) == CASE alt = " " -> "A" [] alt = "1" -> "A" [] alt = "2" -> "B" [] alt = "3" -> "C" [] OTHER -> alt
